@@ -267,6 +267,8 @@ Holds(e, name) ==
          \A k \in 1..Len(o.integrals.implicit_upwind) : o.integrals.implicit_upwind[k] = o.integrals.implicit_upwind[1]
     [] name = "C01_ClosedStepExplicit" ->
          \A k \in 1..Len(o.integrals.explicit) : o.integrals.explicit[k] = o.integrals.explicit[1]
+    [] name = "C01_ClosedStepExplicitUpdate" ->
+         \A k \in 1..Len(o.integrals.explicit_update) : o.integrals.explicit_update[k] = o.integrals.explicit_update[1]
     [] name = "C07_Premise" -> VecZero(g, FieldOf(g, o.divu))
     [] name = "C07_SignStructure" -> C07_SignStructure(g, MatOf(o.Mdiff), MatOf(o.Mup), MatOf(o.Msrc))
     [] name = "C07_Hull" -> C07_Hull(o.steps)
